@@ -8,6 +8,7 @@ import (
 
 	"nhooyr.io/websocket"
 
+	"verifsim/simrt"
 	"verifsim/wsref"
 )
 
@@ -19,7 +20,7 @@ func init() {
 		Exhaustive: "adversary (12 kinds) x every stall offset k of the scripted frame x local state (11) x call (Close, CloseNow, CloseRead self-close) x role"})
 }
 
-var c09Adv = []string{"silent", "stall-data2", "stall-data4", "stall-data10", "stall-close", "flood", "huge", "never-reads", "half-close", "echo", "never-reads-sends-pongs", "late-ping-stall", "reads-at-deadline"}
+var c09Adv = []string{"silent", "stall-data2", "stall-data4", "stall-data10", "stall-close", "flood", "huge", "never-reads", "half-close", "echo", "never-reads-sends-pongs", "late-ping-stall", "reads-at-deadline", "cut-data-eof", "cut-data-reset"}
 var c09State = []string{"idle", "reader-blocked", "half-read-in-frame", "half-read-frame-end", "closeread", "writer-blocked", "ping-waiting", "closeread+ping-waiting", "after-writer-misuse", "closed-then-closeread", "write-waiting-for-open-writer"}
 var c09Call = []string{"Close", "CloseNow", "none"}
 var c09EchoDelays = []time.Duration{0, 4900 * time.Millisecond, 5100 * time.Millisecond}
@@ -29,7 +30,7 @@ func c09Frame(adv int) wsref.Frame {
 	switch adv {
 	case 1:
 		return wsref.Frame{Fin: true, Opcode: wsref.OpBinary, Payload: make([]byte, 100)}
-	case 2:
+	case 2, 13, 14:
 		return wsref.Frame{Fin: true, Opcode: wsref.OpBinary, Payload: make([]byte, 200)}
 	case 3:
 		return wsref.Frame{Fin: true, Opcode: wsref.OpBinary, Payload: make([]byte, 200), ForceEnc: 2}
@@ -54,7 +55,7 @@ func enumC09(tier string) [][]uint32 {
 	for role := 0; role < 2; role++ {
 		for adv := 0; adv < len(c09Adv); adv++ {
 			ks := []int{0}
-			if adv >= 1 && adv <= 4 {
+			if adv >= 1 && adv <= 4 || adv >= 13 {
 				ks = nil
 				n := c09FrameLen(adv, role == 0)
 				for k := 1; k < n; k++ {
@@ -76,7 +77,7 @@ func enumC09(tier string) [][]uint32 {
 						if call == 2 && st != 4 {
 							continue
 						}
-						if tier != "thorough" && (k+st+call+adv)%2 == 1 && adv >= 1 && adv <= 4 && k > 16 {
+						if tier != "thorough" && (k+st+call+adv)%2 == 1 && (adv >= 1 && adv <= 4 || adv >= 13) && k > 16 {
 							continue
 						}
 						out = append(out, []uint32{uint32(role), uint32(adv), uint32(k), uint32(st), uint32(call)})
@@ -95,7 +96,7 @@ func runC09(r *Run) {
 	var k int
 	peerIsClient := role == 0
 	switch {
-	case adv >= 1 && adv <= 4:
+	case adv >= 1 && adv <= 4 || adv >= 13:
 		n := c09FrameLen(adv, peerIsClient)
 		k = 1 + t.Draw(n-1)
 	case adv == 9:
@@ -128,7 +129,7 @@ func runC09(r *Run) {
 	}
 	c, peer := rc.C, rc.Peer
 	sig := fmt.Sprintf("state=%s,call=%s,adv=%s", c09State[st], c09Call[call], c09Adv[adv])
-	if adv >= 1 && adv <= 4 {
+	if adv >= 1 && adv <= 4 || adv >= 13 {
 		f := c09Frame(adv)
 		f.Masked = peerIsClient
 		hdr := len(wsref.AppendFrame(nil, f)) - len(f.Payload)
@@ -198,16 +199,31 @@ func runC09(r *Run) {
 	}
 	// adversary bytes
 	var advBytes []byte
-	if adv >= 1 && adv <= 4 {
+	if adv >= 1 && adv <= 4 || adv >= 13 {
 		advBytes = peer.Encode(c09Frame(adv))[:k]
 	}
 	if call == 2 {
 		// CloseRead closes by itself: the peer sends a data message
 		advBytes = append(peer.Encode(wsref.Frame{Fin: true, Opcode: wsref.OpText, Payload: []byte("unexpected")}), advBytes...)
 	}
+	// cut-data adversaries: the stream ends (EOF / reset) inside the frame
+	endStream := func() {
+		switch adv {
+		case 13:
+			rc.Raw.CloseWrite()
+		case 14:
+			in := rc.Lib.In()
+			r.S.Lock()
+			in.CutAt = in.Written
+			in.CutErr = simrt.ErrReset
+			r.S.Unlock()
+			r.S.Kick()
+		}
+	}
 	if st != 2 && st != 3 {
 		peer.Inject(append(pre, advBytes...))
 		advBytes = nil
+		endStream()
 	} else {
 		peer.Inject(pre) // adversary bytes follow once the reader holds its state
 	}
@@ -248,6 +264,7 @@ func runC09(r *Run) {
 			}
 			if advBytes != nil {
 				peer.Inject(advBytes)
+				endStream()
 			}
 			stateReady = true
 			*d = r.S.Now() // this actor is not blocked in a library call
